@@ -40,7 +40,7 @@ def generated_programs(d, n, seed, profile="mixed", allow=None):
     return read_ndjson(out)
 
 
-def run_programs(d, name, programs, builds, backends="wasm,ts", jobs=8, fuel=50_000_000, env=None):
+def run_programs(d, name, programs, builds, backends="wasm,ts", jobs=8, fuel=50_000_000, env=None, ts_syntax=False):
     """Splits `programs` into chunks, runs `vh run-programs` on them in parallel, returns the records."""
     build_harness()
     for i, p in enumerate(programs):
@@ -53,7 +53,7 @@ def run_programs(d, name, programs, builds, backends="wasm,ts", jobs=8, fuel=50_
         outp = os.path.join(d, f"{name}-rec-{ci}.ndjson")
         write_ndjson(inp, chunks[ci])
         vh(["run-programs", "--in", inp, "--out", outp, "--builds", ",".join(map(str, builds)),
-            "--backends", backends, "--fuel", fuel], timeout=3000, env=env)
+            "--backends", backends, "--fuel", fuel] + (["--ts-syntax"] if ts_syntax else []), timeout=3000, env=env)
         return read_ndjson(outp)
 
     with ThreadPoolExecutor(max_workers=jobs) as ex:
